@@ -242,7 +242,7 @@ func TestC01Sweep(t *testing.T) {
 	if mode != "huge" {
 		// lengths just above 2^20 and a few millions of bits, not multiples of 2, 4 or 8, for every test and parameter
 		// (implementations that split long inputs into chunks or hand them to several workers)
-		for i, n := range []int{1048577, 1200003, 2000001} {
+		for i, n := range []int{1048577, 1200003, 2000001, 10000019} {
 			u := gen.Seq{Family: "uniform", N: n, Seed: uint64(300 + i)}
 			cases = append(cases, statCase{Test: "monobit", Seq: u}, statCase{Test: "blockAuto", Seq: u}, statCase{Test: "block", M: 129, Seq: u})
 			for _, m := range []int{2, 4, 8} {
